@@ -55,6 +55,17 @@ class OpsMixin:
             results[rep] = res
         if not results:
             raise Skip("no replica took part")
+        rf = getattr(self, "_recovery_failed", None)
+        self._recovery_failed = None
+        if rf is not None and expect is None and results.get("polars", ("ok",))[0] == "ok":
+            res2 = rf[1]
+            self.violate(
+                "C08",
+                "O8.2",
+                f"`{step['op']}` raised SubqueryError; after inserting alias() it raised {res2[1]}: {str(res2[2])[:200]}",
+                op=step["op"],
+                second=res2[1],
+            )
         if before is not None:
             self.check_frame_condition(before, step, results)
 
@@ -80,6 +91,9 @@ class OpsMixin:
         self.states.add((new_m.abstract_state(), step["op"]))
         if recovered:
             self.note("subquery_recovered")
+            # the SQL replica now goes through a sub-query: its row order is no longer defined
+            # (DESIGN.md section 4.2), so the replicas are compared as multisets from here on
+            new_m.order_fixed = False
         d = self.after_produce(pt, step, inputs)
         self.emit(step, "ok", d)
         return pt
@@ -111,13 +125,8 @@ class OpsMixin:
         if res2[0] == "ok":
             return res2, True
         if "O8" in self.fam and plain:
-            self.violate(
-                "C08",
-                "O8.2",
-                f"`{step['op']}` raised SubqueryError; after inserting alias() it raised {res2[1]}: {res2[2]}",
-                op=step["op"],
-                second=res2[1],
-            )
+            # judged after all replicas ran: only if the Polars replica accepts the same step
+            self._recovery_failed = (step, res2)
         return res, False
 
     def crash_prop(self, subject):
